@@ -719,6 +719,70 @@ def run_lines(exe, lines, prefix):
 U64 = 1 << 64
 
 
+def invalid_bump_stage(res, tier, prop, want):
+    """Bumps that must panic, on str sources, in debug and release builds of the default features: into the middle of a
+    multi-byte character (want='midchar', C04: no observable span boundary inside a code point) or beyond the end of
+    the source (want='beyond', C05: no slice with out-of-range bounds).  Expected outcomes come from the Coq model
+    Runtime/Source.v bump_case; the harness reports the position after a caught panic and the state of slice()."""
+    import coqeval, re as _re
+    exes = {}
+    for fs, prof in [('tc', 'debug'), ('tc', 'release')]:
+        sets = ce.compiled_sets('quick', [fs], prof)
+        exes[(fs, prof)] = sets[0][1][fs][0]
+    inputs = [('Greek', 'λ日本 ab😀λ'), ('Greek', 'αβ λ'), ('KwIdent', 'fn é€ 12'), ('SelfLoops', 'aaab 12_3')]
+    cases = []
+    for en, txt in inputs:
+        data = txt.encode('utf8'); L = len(data)
+        for k in range(0, 4):
+            if want == 'midchar':
+                ns = [n for n in range(0, L + 1)]
+            else:
+                ns = [L + d for d in (1, 2, 3, 7, 64)] + [n for n in range(0, L + 2)]
+            for n in ns:
+                cases.append((en, data, k, n))
+    lines = ['B c%d %s %s %d %d' % (i, en, data.hex(), k, n) for i, (en, data, k, n) in enumerate(cases)]
+    real = {b: run_lines(exe, lines, 'B') for b, exe in exes.items()}
+    ref = real[('tc', 'debug')]
+    exprs = []; keep = []
+    for i, (en, data, k, n) in enumerate(cases):
+        m = _re.search(r'before=(\d+)\.\.(\d+)', ref.get('c%d' % i, ''))
+        if not m:
+            continue
+        s0, e0 = int(m[1]), int(m[2])
+        end = e0 + n
+        mid = end < len(data) and (data[end] & 0xC0) == 0x80
+        if (want == 'midchar' and not mid) or (want == 'beyond' and end <= len(data)):
+            continue
+        keep.append((i, s0, e0))
+        exprs.append('bump_case true %s %d %d %d' % (coqeval.nlist(data), s0, e0, n))
+    model = coqeval.coq_eval(exprs, 'From LogosV Require Import Runtime.Source.', 'bumpx') if exprs else []
+    nbad = 0
+    for b, out in real.items():
+        for (i, s0, e0), (mok, ms, me) in zip(keep, model):
+            en, data, k, n = cases[i]
+            r = out.get('c%d' % i, '')
+            m = _re.match(r'(ok|panic) before=(\d+)\.\.(\d+) after=(\d+)\.\.(\d+) (\w+)', r)
+            res.count('invalid_bump_cases')
+            bad = None
+            if not m:
+                bad = 'no result: %r' % r
+            else:
+                after = (int(m[4]), int(m[5]))
+                if (m[1] == 'ok') != bool(mok):
+                    bad = 'bump %s but the specification says %s; span afterwards %d..%d' % ('succeeded' if m[1] == 'ok' else 'panicked', 'success' if mok else 'panic', after[0], after[1])
+                elif after != (ms, me):
+                    bad = 'span after the bump %r, specification %r' % (after, (ms, me))
+                elif m[6] != 'sliceok':
+                    bad = 'slice()/remainder() afterwards: %s' % m[6]
+            res.oblige(bad is None)
+            if bad:
+                nbad += 1
+                if nbad <= 4:
+                    res.violation(None, '%s %s/%s input %r after %d next(): bump(%d): %s' % (en, b[0], b[1], data, k, n, bad),
+                                  dict(enum=en, featureset=b[0], profile=b[1], input_hex=data.hex(), nexts=k, bump=n, observed=r))
+    return nbad
+
+
 def check_C15(tier):
     import coqeval, re as _re
     res = Result('C15', tier)
@@ -928,6 +992,8 @@ def check_C05(tier):
                                            input_hex=p_.hex(), input=repr(p_)))
     res.oblige(nguard == 0)
     res.count('guarded_placement_probes', ng)
+    # bumps beyond the end of a str source must panic: otherwise slice()/remainder() are formed with out-of-range bounds
+    invalid_bump_stage(res, tier, 'C05', 'beyond')
     return res.finish('./vcheck C05 --tier ' + tier)
 
 
@@ -1198,6 +1264,8 @@ def check_C04(tier):
     res.cov['rule'] = ('utf8_ok + utf8_strict_ok (complete exploration of DFA x UTF-8 automaton through a validated hint) on every accepted str-mode definition of the corpora and, independently compiled, on every subpattern of an accepted str-mode definition; '
                        'curated must-reject definitions; K2: every str probe (valid UTF-8 incl. 2/3/4-byte characters) checks slice()/remainder() against the source and the forbid_unsafe build for panics')
     res.assumptions += ASSUME_ENGINE + ['subpattern DFAs are built by tools/capture/src/subpat.rs with the same regex-automata configuration as Graph::new, inlining earlier subpatterns textually']
+    # bumps into the middle of a code point must panic (debug and release): otherwise span(), slice(), remainder() split a character
+    invalid_bump_stage(res, tier, 'C04', 'midchar')
     return res.finish('./vcheck C04 --tier ' + tier)
 
 
@@ -1478,7 +1546,8 @@ def check_C10(tier):
     n = 60 if tier == 'quick' else 600
     defs = []   # (name, source, kind, info)
     fixed = ['mask', 'k', 's', 'KS', 'Kelvin', 'ſ', 'K', 'ß', 'ǆ', 'σς', 'i', 'I', 'İ', 'a.b', '(x)', 'a|b', '[k]', 'k+', 's*', '\\', '^$', '{2}', '-~', '#&',
-             '<>', '=>', 'br>', '</a', 'a<b', '!"%', "',/", ':;@', '_`=', 'b<', 'B>z']
+             '<>', '=>', 'br>', '</a', 'a<b', '!"%', "',/", ':;@', '_`=', 'b<', 'B>z',
+             '\u01c5-1', '\u01c5', '\u01c8_', '\u1f88']          # titlecase letters: neither lower nor upper case, yet they fold
     for i in range(n):
         lit = fixed[i] if i < len(fixed) else fg.random_literal(rng)
         defs.append(('TokS%d' % i, '#[derive(Logos)] enum TokS%d { #[token(%s)] A, #[regex("[0-9]+")] N }' % (i, fg.rust_str_lit(lit)), 'tok', dict(lit=lit.encode('utf8'), bytes=False)))
@@ -1486,7 +1555,8 @@ def check_C10(tier):
         bl = fixed[i].encode('utf8') if i < len(fixed) else fg.random_byte_literal(rng)
         defs.append(('TokB%d' % i, '#[derive(Logos)] #[logos(utf8 = false)] enum TokB%d { #[token(%s)] A, #[regex("[0-9]+")] N }' % (i, fg.rust_bytes_lit(bl)), 'tok', dict(lit=bl, bytes=True)))
         defs.append(('TokBI%d' % i, '#[derive(Logos)] #[logos(utf8 = false)] enum TokBI%d { #[token(%s, ignore(case))] A, #[regex("[0-9]+")] N }' % (i, fg.rust_bytes_lit(bl)), 'toki', dict(lit=bl, bytes=True)))
-    pats = ['[a-c]+x', 'ab|cd', 'k[a-z]?', 'é+', 'straße', '[^a-y]z', 'a{2,3}b', 'sS', '(?-i:a)b', 'ǆ', '[k-m]+']
+    pats = ['[a-c]+x', 'ab|cd', 'k[a-z]?', 'é+', 'straße', '[^a-y]z', 'a{2,3}b', 'sS', '(?-i:a)b', 'ǆ', '[k-m]+',
+            '[0-_]+', '[:-\\[]+', '[@-\\[]1', '\u01c5+', '[!-~]2']      # no cased character in the source text, yet (?i) changes the language
     for i, pat in enumerate(pats):
         defs.append(('RegI%d' % i, '#[derive(Logos)] enum RegI%d { #[regex(%s, ignore(case))] A, #[token("0")] Z }' % (i, fg.rust_str_lit(pat)), 'regi', dict(pat=pat)))
         defs.append(('SkipI%d' % i, '#[derive(Logos)] #[logos(skip(%s, ignore(case)))] enum SkipI%d { #[token("0")] Z }' % (fg.rust_str_lit(pat), i), 'skipi', dict(pat=pat)))
@@ -1652,11 +1722,14 @@ def check_C11(tier):
             bytes_regex_cases.add(len(cases))
             cases.append((subs, p, False))
     # random combinations of references inside small contexts
-    ctxs = ['%s', 'a%sb', '(%s)+', '%s|z', 'x(%s|y)', '%s%s']
-    for _ in range(20 if tier == 'quick' else 200):
+    ctxs = ['%s', 'a%sb', '(%s)+', '%s|z', 'x(%s|y)', '%s%s',
+            # multi-byte characters in the referencing pattern and a short tail after the last reference (byte vs char offsets)
+            'é%s+', '€%s*', 'éé%s?', '日%sx', '😀%s+', 'é%sé', '%sé+']
+    nrand = 20 if tier == 'quick' else 200
+    for k_ in range(nrand + 7):
         subs, pats = rng.choice(C11_CASES)
         refs = ['(?&%s)' % n for n, _, _ in subs]
-        ctx = rng.choice(ctxs)
+        ctx = ctxs[6 + k_ - nrand] if k_ >= nrand else rng.choice(ctxs)
         p = ctx % tuple(rng.choice(refs) for _ in range(ctx.count('%s')))
         cases.append((subs, p, True))
     defs = []
@@ -1746,7 +1819,7 @@ def check_C11(tier):
 def check_C18(tier):
     import coqeval, frontgen as fg, itertools
     res = Result('C18', tier)
-    framework(res, ['C18_parse_join_items', 'C18_named_args_commute', 'C18_old_refuted'])
+    framework(res, ['C18_parse_join_items', 'C18_named_args_commute', 'C18_old_refuted', 'C18_generic_items_commute', 'C18_type_lifetime_swap', 'C18_old_generic_items_refuted'])
     rng = random.Random(seed() * 41 + 18)
     # ---- K8: the real tokenizer vs Front.AttrParser on generated attribute contents
     named = ['priority = 3', 'priority = 12', 'callback = my_cb', 'callback = |lex| lex.slice().len()', 'ignore(case)', 'allow_greedy = true',
@@ -1820,11 +1893,13 @@ def check_C18(tier):
         rng.shuffle(groups)
         groups = sorted(groups, key=lambda g: -len(g[1]))[:40] + groups[40:80]
     # #[logos(...)] items: permutations that keep subpatterns before their use
-    litems = ['skip " "', 'skip("#", priority = 9)', 'subpattern d = "[0-9]"', 'subpattern dd = "(?&d)(?&d)"', 'extras = u8', 'error = E', 'utf8 = false']
+    litems = ['skip " "', 'skip("#", priority = 9)', 'subpattern d = "[0-9]"', 'subpattern dd = "(?&d)(?&d)"', 'extras = u8', 'error = E', 'utf8 = false',
+              'skip b"\\xFF+"']
     lgroups = []
-    for _ in range(12 if tier == 'quick' else 120):
+    forced = [['skip b"\\xFF+"', 'utf8 = false'], ['skip b"\\xFF+"', 'utf8 = false', 'extras = u8'], ['utf8 = false', 'skip " "', 'error = E']]
+    for it_ in range(12 if tier == 'quick' else 120):
         k = rng.randint(2, 5)
-        sub = rng.sample(litems, k)
+        sub = forced[it_] if it_ < len(forced) else rng.sample(litems, k)
         perms = []
         for perm in itertools.permutations(sub):
             if 'subpattern dd = "(?&d)(?&d)"' in perm and ('subpattern d = "[0-9]"' not in perm or perm.index('subpattern d = "[0-9]"') > perm.index('subpattern dd = "(?&d)(?&d)"')):
@@ -1842,6 +1917,20 @@ def check_C18(tier):
             members.append(('P%d' % idx, src, body)); idx += 1
         if len(members) > 1:
             lgroups.append(('logos', members))
+    # items that configure generics: a generic enum with `type T = ..` and `lifetime = ..` (and neighbours) in every order
+    gitems = ["type T = &'a str", "lifetime = 'a", 'skip " "', 'extras = u8', 'error = E']
+    for _ in range(6 if tier == 'quick' else 40):
+        k = rng.randint(2, 4)
+        sub = rng.sample(gitems, k)
+        if "type T = &'a str" not in sub:
+            sub[0] = "type T = &'a str"
+        members = []
+        for perm in list(itertools.permutations(sub))[:24]:
+            body = ', '.join(perm)
+            src = "#[derive(Logos)] #[logos(%s)] enum P%d<'a, T> { #[regex(\"[a-z]+\")] A(T), #[token(\"!\")] B(&'a str) }" % (body, idx)
+            members.append(('P%d' % idx, src, body)); idx += 1
+        if len(members) > 1:
+            lgroups.append(('logos-generics', members))
     allgroups = groups + lgroups
     d = cache_dir('gen', 'c18-%d-%s' % (seed(), tier))
     srcp = os.path.join(d, 'c18.rs')
